@@ -1276,8 +1276,14 @@ def _reply_shape(run):
                 if len(v.elts) == 1 and isinstance(v.elts[0], ast.Name):
                     gm = A.cfg(m, pc)
                     for rn in gm.nodes_of(r):
+                        # the returned local, or the local it is a plain copy of on this path (`code = verdict; return (code,)`)
+                        same = {v.elts[0].id}
+                        from sa.prov import Prov as _Prov
+                        rds_ = _Prov(A).reaching(m, pc, v.elts[0].id, rn)
+                        if len(rds_) == 1 and rds_[0].kind == "assign" and isinstance(rds_[0].value, ast.Name):
+                            same.add(rds_[0].value.id)
                         for f in Facts(A).local(m, pc, rn):
-                            if f.kind == "cmp" and f.op == "<" and norm(f.left) == v.elts[0].id:
+                            if f.kind == "cmp" and f.op == "<" and norm(f.left) in same:
                                 okb, kb = try_fold(P, f.right, m, pc)
                                 if okb and isinstance(kb, int) and kb <= 0:
                                     vs = {x for x in vs if x < kb}
